@@ -10,8 +10,9 @@ HARNESSES = [
     dict(name="disp", pkg="./internal/l2tp/", test="TestVerifC16Dispatch",
          files=[("internal/l2tp/zz_verif_c16_dispatch_test.go", "harness/C16/zz_verif_c16_dispatch_test.go")]),
 ]
-# one model = what /repo HEAD does; every C16 finding is fixed, so a regression to an old defect is a VIOLATION
-VARIANTS = ["repaired"]
+# "defective" differs from "repaired" only in the one finding still open (sccrq-copy-after-teardown: no record of
+# torn-down control connections); every fixed finding exists in one form only, so a regression to it is a VIOLATION
+VARIANTS = ["repaired", "defective"]
 # the runner cases run on real timers: the model driver reads the observed write times and accepts them within a
 # tolerance around the runner_next-driven prediction (everything else is compared exactly)
 MODEL_NEEDS_IMPL = True
@@ -38,7 +39,7 @@ ASSUMPTIONS = ["fewer than 2^15 messages are submitted per direction (exactly-on
 
 
 def route(case):
-    return "disp" if case.startswith(("disp", "sccrq", "full", "rws", "overlap", "stopccn", "sccrqdup", "idle", "runner")) else "chan"
+    return "disp" if case.startswith(("disp", "sccrq", "full", "rws", "overlap", "stopccn", "sccrqdup", "idle", "runner", "estab")) else "chan"
 
 
 ORIGINS = [0, 0, 1, 0x7ffd, 0x7ffe, 0x7fff, 0x8000, 0x8001, 0xfffc, 0xfffd, 0xfffe, 0xffff]
@@ -204,6 +205,56 @@ def gen_burst(rng, n):
     return out
 
 
+ESTAB = {"lns": ["sccrq", "scccn", "icrq", "iccn", "hello", "cdn", "stop"],
+         "lac": ["sccrp", "icrp", "hello", "cdn", "stop"]}
+
+
+def gen_estab(rng, n):
+    """complete control connections through the real Dispatch with LATE COPIES of every establishment message in every
+    later state (also during/after teardown).  A copy of the SCCRQ after the teardown is only ever the last step."""
+    out = []
+    for role, base in ESTAB.items():
+        # exhaustive: after every prefix, every earlier message once more (one case per state, all copies packed)
+        for i in range(1, len(base) + 1):
+            steps = list(base[:i])
+            closed = "stop" in steps
+            for k in range(i):
+                if not (closed and role == "lns" and k == 0):
+                    steps.append("r%d" % k)
+            steps += base[i:]
+            out.append("estab %s %s" % (role, " ".join(steps)))
+            if role == "lns" and closed:
+                out.append("estab %s %s r0" % (role, " ".join(base[:i])))
+        # one copy at a time, at every later position
+        for k in range(len(base)):
+            for pos in range(k + 1, len(base) + 1):
+                if role == "lns" and k == 0 and pos == len(base):
+                    continue
+                out.append("estab %s %s" % (role, " ".join(base[:pos] + ["r%d" % k] + base[pos:])))
+    for _ in range(n):
+        role = rng.choice(["lns", "lac"])
+        base = list(ESTAB[role])
+        if role == "lns":       # more sessions, more traffic
+            extra = rng.randrange(0, 3)
+            base = base[:2] + ["icrq"] * extra + base[2:4] + ["hello"] * rng.randrange(0, 3) + base[4:]
+        if rng.random() < 0.3:
+            base = base[:-1]    # no teardown
+        steps, sent = [], 0
+        for st in base:
+            steps.append(st)
+            sent += 1
+            closed = st == "stop"
+            for _ in range(rng.choice([0, 0, 1, 2, 4])):
+                k = rng.randrange(sent)
+                if closed and role == "lns" and k == 0:
+                    continue
+                steps.append("r%d" % k)
+        if role == "lns" and base[-1] == "stop" and rng.random() < 0.5:
+            steps.append("r0")
+        out.append("estab %s %s" % (role, " ".join(steps)))
+    return out
+
+
 def gen_runner():
     """scripted peers against the real runner loop (real timers, all cases run concurrently, ~2.3 s)"""
     out = ["runner 1500", "runner 1200 5:scccn"]
@@ -307,6 +358,7 @@ def gen_cases(rng, tier, budget):
     cases.append("sccrqdup")
     cases.append("idle 700")
     cases += gen_runner()
+    cases += gen_estab(rng, 120 if quick else 1500)
     # advertised Receive Window Size through the real establishment path; exhaustive over the small grid
     for w in ["-", "0", "1", "2", "3", "4", "8", "16", "32"]:
         cases.append("rws lac %s 0 0" % w)
@@ -364,6 +416,16 @@ def monitor(case, line):
         return monitor_disp(case, line)
     if case.startswith("full"):
         return monitor_full(case, line)
+    if case.startswith("estab"):
+        steps = case.split()[2:]
+        toks = line.split()[1:]
+        off = len(toks) - len(steps)          # lac prints one extra token for StartLACSession
+        for i, st in enumerate(steps):
+            if st[0] == "r" and st[1:].isdigit() and 0 <= i + off < len(toks) and i + off >= 1:
+                if toks[i + off] != toks[i + off - 1]:
+                    return ("step %d (%s): a late copy of peer message #%s changed the tunnel/session/reply counts from %s to %s: "
+                            "delivered to the protocol machine a second time" % (i, st, st[1:], toks[i + off - 1], toks[i + off]))
+        return None
     if case.startswith("runner"):
         return None
     if case.startswith("idle"):
@@ -555,6 +617,13 @@ def classify(case, impl, model):
 def signature(case, impl, models):
     if "defective" not in models:
         return "none"
+    if case.startswith("estab"):
+        # only an SCCRQ copy (r0 on the LNS) after the teardown may be explained by the open finding
+        t = case.split()
+        if t[1] == "lns" and t[-1] == "r0" and "stop" in t and impl == models["defective"]:
+            return "sccrq-copy-after-teardown"
+        return "other:estab"
+    return "other:" + case.split()[0]
     if case.startswith("sccrqdup"):
         return "sccrq-retransmit-second-tunnel" if impl == models.get("defective") else "other:sccrqdup"
     if case.startswith("stopccn"):
@@ -592,6 +661,8 @@ def nontrivial(case, out):
         return any(t.endswith(":A1") for t in toks)
     if case.startswith("runner"):
         return len(toks) > 2
+    if case.startswith("estab"):
+        return any(x[0] == "r" for x in case.split()[2:])
     if not kv:
         return False
     if not (kv.get("delA") or kv.get("delB")):
@@ -607,7 +678,7 @@ def shrink(case):
         head, ops = t[:13], t[13:]
     elif t[0] == "disp":
         head, ops = t[:2], t[2:]
-    elif t[0] in ("full", "runner"):
+    elif t[0] in ("full", "runner", "estab"):
         head, ops = t[:2], t[2:]
     else:
         return
